@@ -45,7 +45,10 @@ PS, PU = "src/pyhf/parameters/paramsets.py", "src/pyhf/parameters/utils.py"
 
 # C02.R1 knows the offset bookkeeping as ONE loop in each constructor; R3 (the constant tables of both constraint classes on four
 # interleaved parameter sets) and R9 (the constraint model end to end) decide the same clause from what the constructors compute.
-DEFER = [(["C02.R1"], ["C02.R3", "C02.R9"], "src/pyhf/constraints.py")]  # the instance in pdf.py (auxdata and its order grow under one guard) keeps its own verdict
+DEFER = [(["C02.R1"], ["C02.R3", "C02.R9"], "src/pyhf/constraints.py"), (["C02.R2"], ["C02.R3", "C02.R9"]), (["C02.R4"], ["C02.R9"], "_ConstraintModel")]
+# R3 has dataflow instances (`self._normal_data` derives from the windows collected in the pairing loop ...) next to interpreted ones (the
+# constant tables of both constraint classes on four interleaved parameter sets): the former know one way of writing the constructor
+DEFER_WITHIN = [("C02.R3", lambda site, detail: "does not derive from" in detail or "is not the tensor form" in detail or "pairing loop" in detail, lambda site: "[interpreted" in site or "tables [" in site, ["C02.R9"])]  # the instance in pdf.py (auxdata and its order grow under one guard) keeps its own verdict
 
 
 def run(ctx):
